@@ -31,6 +31,9 @@ type Layer struct {
 	NoSinglePost bool `json:"no_single_post,omitempty"`
 	MaxPage      int  `json:"max_page,omitempty"`
 	ClientPage   int  `json:"client_page,omitempty"`
+	// Charset: a front end declares the server's JSON answers as application/json; charset=utf-8
+	// (the same media type, spelled with a parameter as many registries and proxies do)
+	Charset bool `json:"charset,omitempty"`
 
 	// sub
 	Prefix string `json:"prefix,omitempty"`
@@ -119,12 +122,16 @@ func Build(base ociregistry.Interface, spec Spec, opts *Options) (*Built, error)
 	for _, l := range spec {
 		switch l.Kind {
 		case "http":
-			srv := memnet.NewServer(ociserver.New(cur, &ociserver.Options{
+			var handler http.Handler = ociserver.New(cur, &ociserver.Options{
 				OmitDigestFromTagGetResponse: l.OmitDigest,
 				OmitLinkHeaderFromResponses:  l.OmitLink,
 				DisableSinglePostUpload:      l.NoSinglePost,
 				MaxListPageSize:              l.MaxPage,
-			}))
+			})
+			if l.Charset {
+				handler = charsetting{handler}
+			}
+			srv := memnet.NewServer(handler)
 			tr := srv.Transport()
 			var rt http.RoundTripper = tr
 			if opts.WrapTransport != nil {
@@ -171,6 +178,28 @@ func Build(base ociregistry.Interface, spec Spec, opts *Options) (*Built, error)
 	return b, nil
 }
 
+type charsetting struct{ h http.Handler }
+
+type charsettingWriter struct{ http.ResponseWriter }
+
+func (w charsettingWriter) WriteHeader(code int) {
+	if w.Header().Get("Content-Type") == "application/json" {
+		w.Header().Set("Content-Type", "application/json; charset=utf-8")
+	}
+	w.ResponseWriter.WriteHeader(code)
+}
+
+func (w charsettingWriter) Write(p []byte) (int, error) {
+	if w.Header().Get("Content-Type") == "application/json" {
+		w.Header().Set("Content-Type", "application/json; charset=utf-8")
+	}
+	return w.ResponseWriter.Write(p)
+}
+
+func (c charsetting) ServeHTTP(w http.ResponseWriter, req *http.Request) {
+	c.h.ServeHTTP(charsettingWriter{w}, req)
+}
+
 // GenHTTP draws an http layer.
 func GenHTTP(t *rapid.T, label string, pages []int) Layer {
 	return Layer{
@@ -179,5 +208,6 @@ func GenHTTP(t *rapid.T, label string, pages []int) Layer {
 		OmitLink:     rapid.Bool().Draw(t, label+"OmitLink"),
 		NoSinglePost: rapid.Bool().Draw(t, label+"NoSinglePost"),
 		ClientPage:   rapid.SampledFrom(pages).Draw(t, label+"ClientPage"),
+		Charset:      rapid.IntRange(0, 3).Draw(t, label+"Charset") == 0,
 	}
 }
